@@ -53,4 +53,16 @@ theorem fpmTableG_eq (e : R → V) (ofR : R → V) (sqrt : R → R) (m n My Mx :
   rw [C01.rd2_tab2_lt _ hk hl, fixedTableG_eq e ofR sqrt m n My Mx dx efl lam fdx shx shy f k l hk hl]
   simp only [fixedSampling]
 
+/-- the `Wavefront.babinet` table printed by the C05 driver is `Model.C05.babinet` -/
+theorem babTableG_eq (e : R → V) (ofR : R → V) (sqrt : R → R) (m n My Mx : Nat) (dx efl lam fdx : R)
+    (lyot mask f : Array (Array V)) (j i : Nat) (hj : j < m) (hi : i < n) :
+    rd2 (babTableG e ofR sqrt m n My Mx dx efl lam fdx lyot mask f) j i
+      = babinet e ofR sqrt m n My Mx dx efl lam fdx (rd2 lyot) (rd2 mask) (rd2 f) j i := by
+  simp only [babTableG, babinet]
+  rw [C01.rd2_tab2_lt _ hj hi, fpmTableG_eq e ofR sqrt m n My Mx dx efl lam fdx _ _ _ f j i hj hi]
+  congr 2
+  simp only [toFpmAndBack, maskAndBack]
+  refine mdft2_congr _ My Mx m n _ _ _ _ _ _ _ j i fun k hk l hl => ?_
+  rw [C01.rd2_tab2_lt _ hk hl]
+
 end C03Lemmas
